@@ -79,6 +79,13 @@ type TxPlan struct {
 	Blobs       int // number of blob hashes (blob txs)
 	BlobCap     int // 0: == blob base fee, 1: +1, 2: 2x+10
 	Auths       []AuthPlan
+	// RefCreate, if set, points at an earlier contract-creation plan (same or earlier
+	// block): World.Build replaces To (RefData false) or Data (RefData true: the
+	// address left-padded to 32 bytes) by the address that plan's transaction created,
+	// and skips this plan ("ref-not-created") if that plan was not included. Only the
+	// opt-in engineered arrangements set it (latedestruct.go); Materialize ignores it.
+	RefCreate *TxPlan
+	RefData   bool
 }
 
 // Describe renders the plan.
@@ -88,6 +95,11 @@ func (p *TxPlan) Describe() string {
 		to = "coinbase"
 	} else if p.To != nil {
 		to = p.To.Hex()
+	}
+	if p.RefCreate != nil && p.RefData {
+		to += "[data=address created by an earlier plan]"
+	} else if p.RefCreate != nil {
+		to = "address created by an earlier plan"
 	}
 	s := fmt.Sprintf("type=%d sender=key%d target=%s(%s) value=%s gas=%s tip=%d cap=%s data=%x", p.Type, p.Sender, p.TargetClass, to,
 		valClassNames[p.ValClass], gasClassNames[p.GasClass], p.Tip, capClassNames[p.CapClass], p.Data)
